@@ -54,6 +54,9 @@ func (t *Term) String() string {
 	case "complit":
 		return "complit:" + t.Name + "{" + joinTerms(t.Args) + "}"
 	case "clobber":
+		if len(t.Args) == 1 {
+			return "out:" + t.Name + "←" + t.Args[0].String()
+		}
 		return "clobber@" + t.Name
 	case "slice":
 		return t.Args[0].String() + "[" + joinTerms(t.Args[1:]) + "]"
